@@ -1259,6 +1259,54 @@ func ruleTernGuard(p *Program, r *Reporter) {
 		}
 	}
 	r.Check(cleared, "ternary flag cleared on every exit", p.Pos(fn.Pos()), "deferred (or per-return) store of false", "the in-ternary flag stays set on some exit: every later ternary in the script is rejected as nested")
+	// the condition was parsed before the parselet ran (the flag was clear):
+	// it must be examined for a ternary of its own
+	key := "the condition of a ternary is examined for a ternary"
+	if len(fn.Params) < 2 {
+		r.Undecided(key, p.Pos(fn.Pos()), "the parselet has no condition parameter")
+		return
+	}
+	cond := ssa.Value(fn.Params[1])
+	assertsTernary := func(f *ssa.Function, v ssa.Value) bool {
+		for _, b := range f.Blocks {
+			for _, ins := range b.Instrs {
+				if ta, ok := ins.(*ssa.TypeAssert); ok && ta.X == v {
+					if pt, ok := ta.AssertedType.(*types.Pointer); ok && isNamed(pt.Elem(), "ast", "TernaryExpression") {
+						return true
+					}
+				}
+			}
+		}
+		return false
+	}
+	examined := assertsTernary(fn, cond)
+	var test ssa.Value
+	if !examined {
+		for _, b := range fn.Blocks {
+			for _, ins := range b.Instrs {
+				c, ok := ins.(*ssa.Call)
+				if !ok || c.Call.StaticCallee() == nil || fnPkg(c.Call.StaticCallee()) == nil || fnPkg(c.Call.StaticCallee()).Pkg.Path() != Mod+"/parser" {
+					continue
+				}
+				for i, a := range c.Call.Args {
+					h := c.Call.StaticCallee()
+					if a == cond && i < len(h.Params) && assertsTernary(h, h.Params[i]) {
+						examined, test = true, c
+					}
+				}
+			}
+		}
+	}
+	rejects := examined
+	if test != nil {
+		rejects = false
+		for _, ref := range *test.Referrers() {
+			if iff, ok := ref.(*ssa.If); ok && allReturnsNil(iff.Block().Succs[0]) {
+				rejects = true
+			}
+		}
+	}
+	r.Check(examined && rejects, key, p.Pos(fn.Pos()), "the condition is tested for *ast.TernaryExpression and a hit fails the parse", "the ternary parselet never looks into its condition, which was parsed before the in-ternary flag was set: `a ? b : c ? d : e` — the first ternary becomes the condition of the second — is accepted although nesting ternaries is documented as a syntax error")
 }
 
 func ruleLocalGuard(p *Program, r *Reporter) {
